@@ -671,13 +671,8 @@ def s_auto(cx):
     def li_of(n):
         return names.index(n) if n in names else None
 
-    pairs = []
-    for (x, y) in (("English", "French"), ("Chinese (Simplified)", "Chinese (Traditional)"),
-                   ("Spanish", "Portuguese"), ("Italian", "Portuguese"), ("Spanish", "Italian"),
-                   ("English", "Italian"), ("English", "Spanish"), ("French", "Italian")):
-        a, b2 = li_of(x), li_of(y)
-        if a is not None and b2 is not None:
-            pairs.append((a, b2))
+    # every ordered pair of registered languages (those that share fewer than two tokens drop out below)
+    pairs = [(a, b2) for a in range(cx.nl) for b2 in range(cx.nl) if a != b2]
     for (a, b2) in pairs:
         A = cx.langs.langs[a]
         B = cx.langs.langs[b2]
